@@ -27,7 +27,11 @@ THEOREMS = ["C16_spectrometer_history_independent", "C16_spectrometer_reachable_
             "C16_czerny_turner_pixels_increasing", "C16_calibrate_conserves", "C16_spectrum_integral_additive",
             "C16_round53_relative_error", "C16_bin_width_bound_double", "C16_bin_width_bound_polychromator_float",
             "C16_bin_width_bound_polychromator_double", "C16_filter_range", "C16_trapezoid_range_exact",
-            "C16_calibrate_call_outcomes", "C16_setters_have_tabled_effects"]
+            "C16_calibrate_call_outcomes", "C16_setters_have_tabled_effects",
+            "C16_spectrum_integral_constant", "C16_calibrate_conserves_spectrum", "C16_calibrate_flat",
+            "C16_spectrometer_order_independent", "C16_polychromator_order_independent", "C16_constructors_follow_source_tables",
+            "C16_resolution_positive", "C16_resolution_decreasing", "C16_resolution_certificate",
+            "C16_round53_respects_equality", "C16_order_independent_double"]
 
 D2R = float(np.pi / 180.0)
 SLACK = 2.0 ** -40          # bin-width bound on doubles: theorem C16_bin_width_bound_float gives ((1+u)/(1-u))^2, u = 2^-53
@@ -140,6 +144,7 @@ NAME_OBJECTS = [123, None, 2.5, ("a", 1), True]
 
 import collections
 STATS = collections.Counter()      # what the generators actually produced (goes into the evidence)
+TRIG = {}                          # (cos, tan) of the diffraction angle per resolution-oracle key
 DEFAULTS = {}                      # constructor defaults read from the current source (c16_source.translate), tied to the model
 QUICK = [True]                     # tier switch for the size classes
 
@@ -699,6 +704,8 @@ def ct_table_add(table, mod, c, acc):
     aux = mod.CzernyTurnerSpectrometer(c["order"], c["grating"], c["focal"], c["spacing"], c["angle"], ((1., 1),))
     key = (int(c["order"]), float(c["grating"]), float(c["focal"]), float(c["spacing"]), float(aux._diffraction_angle))
     ent = table.setdefault(key, {})
+    # cos / tan of the stored angle, as the running system computes them (data of the model's resolution formula)
+    TRIG[key] = (float(np.cos(aux._diffraction_angle)), float(np.tan(aux._diffraction_angle)))
     for w0, n in acc:
         w = np.float64(w0)
         for _ in range(int(n)):
@@ -834,11 +841,11 @@ def ct_history(rng, mod, enc, quick):
     ops += ["CtGetW2p", "CtGetWl"]
     outs += [enc.arrs(inst.wavelength_to_pixel), enc.arrs(inst.wavelengths)]
     tab_txt = "[" + "; ".join(
-        "({| k_order := %s; k_grating := %s; k_focal := %s; k_spacing := %s; k_angle := %s |}, [%s])" % (
-            zl(k[0]), qlit(k[1]), qlit(k[2]), qlit(k[3]), qlit(k[4]),
+        "({| k_order := %s; k_grating := %s; k_focal := %s; k_spacing := %s; k_angle := %s |}, (%s, %s), [%s])" % (
+            zl(k[0]), qlit(k[1]), qlit(k[2]), qlit(k[3]), qlit(k[4]), qlit(TRIG[k][0]), qlit(TRIG[k][1]),
             "; ".join("(%s, %s)" % (qlit(w), qlit(r)) for w, r in ent.items()))
         for k, ent in table.items()) + "]"
-    case = "check_ct %s %s %s [%s] [%s]" % (qlit(D2R), tab_txt, p_txt, "; ".join(ops), "; ".join(outs))
+    case = "check_ct_full %s %s %s [%s] [%s]" % (qlit(D2R), tab_txt, p_txt, "; ".join(ops), "; ".join(outs))
     return {"case": case, "cur": cur, "inst": inst, "kind": "czerny-turner", "log": log, "side": side,
             "init": {k: c[k] for k in c}, "stale_window": stale_window}
 
@@ -1400,6 +1407,11 @@ def long_cal_case(rng, mod, Spectrum, quick):
         want_impl = np.array([sp.integrate(r[i], r[i + 1]) for i in range(len(r) - 1)])
         want_indep = np.diff(pl_cumulative(xs, ys, e))
         tol = 1e-9 * scale * width + 1e-13 * scale * (e[-1] - e[0])
+        # measured margin: the largest deviation seen, as a fraction of the tolerance (goes into the evidence)
+        h["max_dev_over_tol"] = max(h.get("max_dev_over_tol", 0.0),
+                                    float(np.max(np.maximum(np.abs(have - want_impl), np.abs(have - want_indep)) / tol)))
+        h["max_dev_rel"] = max(h.get("max_dev_rel", 0.0),
+                               float(np.max(np.maximum(np.abs(have - want_impl), np.abs(have - want_indep)) / (scale * width))))
         bad = np.nonzero((np.abs(have - want_impl) > tol) | (np.abs(have - want_indep) > tol))[0]
         if len(bad):
             i = int(bad[np.argmax(np.abs(have - want_impl)[bad])])
@@ -1441,8 +1453,11 @@ def run(ctx):
         "it is compared with (Model/C16_Source.v) are maintained by hand next to the model and linked to the model's setters by "
         "C16_setters_have_tabled_effects; whole-function bodies mirrored by hand (sp_derive, pc_derive, mk_filter, mk_trapezoid, calibrate, "
         "ct_update_w2p, create_pipelines) are pinned as normalised source text, i.e. any edit of them breaks the tie until the model is reviewed",
-        "CzernyTurnerSpectrometer.resolution (sqrt, cos, tan) is an oracle: a finite table filled from the resolution() method of a "
-        "throw-away instrument with the same five parameters; np.deg2rad(x) = round53(x * (pi/180))",
+        "CzernyTurnerSpectrometer.resolution: the pixel recurrence uses a finite table filled from the resolution() method of a throw-away "
+        "instrument with the same five parameters (exact comparison of the pixel arrays); every table entry is additionally checked inside Coq "
+        "against the model's formula resolution_of by the certificate S >= 0, S^2 = cos^2 - p^2 (relative 2^-40; C16_resolution_certificate "
+        "says what it means).  np.cos / np.tan of the stored angle enter as two numbers per parameter set, tied to each other by "
+        "cos^2 (1 + tan^2) = 1 but not to the angle; sqrt is never evaluated; np.deg2rad(x) = round53(x * (pi/180)) for double arguments",
         "raysect Spectrum.integrate is modelled by its specification (integral of the linear interpolant of the samples at the bin "
         "centres, constant extrapolation) and tied under relative 2^-40; NumPy; CPython",
     ]
@@ -1484,7 +1499,7 @@ def run(ctx):
     rng = ctx.rng
     quick = ctx.quick
     enc0 = Enc()
-    n_sp, n_ct, n_pc, n_cal, n_flt = (110, 70, 110, 70, 60) if quick else (1800, 1200, 1800, 900, 500)
+    n_sp, n_ct, n_pc, n_cal, n_flt = (90, 55, 90, 56, 48) if quick else (1200, 800, 1200, 600, 360)
 
     hist = []
     STATS.clear()
@@ -1501,7 +1516,7 @@ def run(ctx):
         hist += cal_cases(rng, mod, Spectrum, quick)
     for _ in range(n_flt):
         hist.append(filter_case(rng, mod))
-    long_cases = [long_cal_case(rng, mod, Spectrum, quick) for _ in range(30 if quick else 250)]
+    long_cases = [long_cal_case(rng, mod, Spectrum, quick) for _ in range(30 if quick else 160)]
     hist.sort(key=lambda h: h["kind"] != "calibrate")     # the expensive files are compiled first (stable sort)
     ctx.log("generated %d cases (%d corpus files present)" % (len(hist), len(corpus)))
 
@@ -1616,7 +1631,8 @@ def run(ctx):
                 continue
             kinds.add(h["kind"])
             ctx.violation("c16-diff:%s" % h["kind"],
-                          "model and implementation disagree for a %s case (first disagreeing call: %d; -1 = resolution oracle had no entry); "
+                          "model and implementation disagree for a %s case (first disagreeing call: %d; -1 = resolution oracle had no entry, -2 = a resolution() value does not "
+                          "satisfy the formula's certificate); "
                           "the executable property found no failing input" % (h["kind"], code),
                           dict(replay_of(h), first_disagreeing_call=code), found=False)
 
@@ -1653,6 +1669,10 @@ def run(ctx):
                          "search_cases": n_search, "corpus_files": len(corpus),
                          "long_calibrations(search only, not run through Coq)": {
                              "cases": len(long_cases), "pixels": sum(h["n_pixels"] for h in long_cases),
+                             "measured_on_this_run: largest |value*width - integral| / (max sample * pixel width)":
+                                 max(h.get("max_dev_rel", 0.0) for h in long_cases),
+                             "measured_on_this_run: largest deviation as a fraction of the tolerance":
+                                 max(h.get("max_dev_over_tol", 0.0) for h in long_cases),
                              "max_pixels_in_one_row": max(max(len(r) - 1 for r in h["w2p"]) for h in long_cases),
                              "spectrum_grids": {g: sum(1 for h in long_cases if h["grid"] == g) for g in ("instrument", "wider", "coarse")},
                              "features": {k: sum(1 for h in long_cases for f in h["features"] if f.startswith(k)) for k in
@@ -1661,18 +1681,21 @@ def run(ctx):
         "tolerance": {"ranges, bin counts, pixel edge/centre arrays, filter min/max/window/central_wavelength, kwargs, classes, "
                       "create_pipelines() result (class, name, filter identity of every pipeline), exception kinds of every call incl. the "
                       "read-only Czerny-Turner pixel arrays and calibrate(<not a Spectrum>)": "exact",
+                      "resolution() values vs the formula (certificate S^2 = cos^2 - p^2, S >= 0; cos^2 (1 + tan^2) = 1)": "relative 2^-40",
                       "source tables (setter guard kinds and effect lists, constructor statement order, lazy getters, defaults, member lists, "
                       "pinned bodies, literal 1.e-15)": "equality checked by the kernel (Gen/C16/Source.v, Lemma source_tie)",
                       "calibrate values": "relative 2^-40 + absolute 2^-50 against the exact integral of the interpolant",
                       "search: bin width bound on doubles": "relative slack 2^-40 (theorem: ((1+u)/(1-u))^2, u=2^-53)",
                       "search: value*width vs integrals": "1e-10 * max sample * pixel width",
                       "search, long pixel rows: value*width vs spectrum.integrate and vs an independent NumPy integral of the interpolant":
-                          "1e-9 * max sample * pixel width + 1e-13 * max sample * row length (measured on the unchanged code: < 1e-12 relative)"},
+                          "1e-9 * max sample * pixel width + 1e-13 * max sample * row length; the largest deviation actually seen is measured on every "
+                          "run and recorded under distribution.long_calibrations (unchanged /repo, seeds 0-3 quick and one thorough run: see there)"},
         "partial": ["CzernyTurnerSpectrometer.resolution is an oracle (its formula is not part of C16); Spectrum.integrate is raysect's and is "
                     "modelled by its specification; observational equality is proved for non-degenerate final parameters",
-                    "order-independence and power-of-two scale covariance of the settings are checked on the implementation (search) only, "
-                    "not stated as theorems; constructors are tied to the source by statement order (table) but their link to "
-                    "sp_construct/ct_construct/pc_construct is by inspection, unlike the setters"],
+                    "power-of-two scale covariance of the settings is checked on the implementation (search) only, not stated as a theorem "
+                    "(order-independence and the constructor <-> source-table link are theorems since the second deepening round)",
+                    "cos and tan of the diffraction angle are data of the resolution formula (not derived from the angle in Coq); the "
+                    "resolution theorems are in exact arithmetic"],
     })
     samp = []
     for k in ("spectrometer", "czerny-turner", "polychromator", "calibrate", "filter"):
